@@ -218,3 +218,7 @@ func vfRunReplays() {
 }
 
 func vfTier() int { return int(vfCur.Vals["$tier"]) }
+
+// vfFormatFailAt(k): symbolic runs make the k-th go/format.Node call fail; natively format.Node is the
+// real printer and this is a no-op (failures of the real printer cannot be injected).
+func vfFormatFailAt(k int) {}
